@@ -1,0 +1,1 @@
+//! Hooks for property C41 (empty unless needed).
